@@ -6,6 +6,32 @@
   witnesses), never the general claim. For resumption theorems the object passed in is a genuinely suspended one: it
   is obtained by running the model on a proper prefix of the input (never written by hand), and its legitimacy
   condition is obtained from the resumption theorem applied to the preceding call (which started from a new object).
+
+  Theorems of this file (to be re-exported by the coordinator); everything else is an `example` or a test definition:
+    C17  `ae_params_reset_fresh`, `ae_hdrs_reset_fresh` : Reset() of a clean URI parameter / header list is `Fresh`
+         (the soundness theorems of Proofs/ParamSound apply after Reset; used on a really used list below).
+    C20  `ae_ip4PrefixAt_size`, `ae_ip4Prefix_size` (any verdict), `ae_ip4Prefix_pos_size`, `ae_containsIP4_size` :
+         the address array returned by IP4Prefix / ContainsIP4 has exactly 4 entries.
+    C14  `ae_parseURI_bare_sips` : the 5 bytes `sips:` (any letter case) give ErrURITooShort at position 5, type and
+         scheme field already filled in; `ae_parseURI_bare_scheme` : all three bare schemes, code and position
+         (`sip:` / `tel:` are 4 bytes: `C14.err_too_short`, position 4, object untouched).
+    C04  `ae_CtSafe_new`, `ae_PaSafe_new` : a NEW contacts / identities object satisfies the safety invariant at any
+         offset inside the buffer; `ae_msg_suspended_legit` : after MoreBytes the message object is legitimate
+         (`msgOK2`, `MsgSafe`) on every extension; `ae_sig_after_suspension(_guarded)` : the chain used to apply
+         `C04.sig_never_panics_history` to a suspended object, for any input;
+         `ae_parse{UIntVal,CLenVal,CSeqVal,NameAddrPVal,AllContactValues,AllPAIValues,FLine,HdrLine}_offset_monotone` :
+         `o ≤ o' ∧ o' ≤ len` after OK / MoreBytes in one uniform shape (`…_mv` for MoreValues, `ae_parseHdrLine_ok_advances`).
+    C18  `ae_adjust_wf` (with `ae_ulenOf_le`, `ae_ulenStep_le`, `ae_moved_inside`) : a relocated URI is well formed again
+         (`WF` with the same length), so `C18.adjust_moves` applies to a second relocation.
+  Notes.
+    * C03 `stable_msg` and a BadChar first line: the hypotheses allow it only when the flags already exclude "body to
+      the end of the buffer" (example with SIPMsgCLenReqF); with flags 0 the side condition is false for that result
+      (shown as a test) and the strengthened `C03.stable_msg_errors` is the one that applies (example).
+    * The model function that the C19 / SigCompose theorems speak about is `getMsgSigCore` (the guard in front of it is
+      `getMsgSig`, Proofs/SigGuard); the examples follow that.
+    * `User-Agent` IS a fingerprinted header type (10 ∈ sigHdrs): the C19 filler headers used below are Subject and
+      X-Filler.
+  Nothing is left unproved in this file; no example of the task list was skipped.
 -/
 import Sipsp.Properties.C17
 import Sipsp.Properties.C02
@@ -73,6 +99,35 @@ theorem ae_hdrs_reset_fresh {l : URIHdrsLst} (h : hlClean l) : l.reset.Fresh := 
   split
   · rfl
   · exact h.1 i (by omega) hk
+
+/-! ### C17, the use of `ae_params_reset_fresh`: a USED list (two parameters stored, a third one under way, verdict
+      MoreBytes), Reset, then the soundness theorem `parseAllURIParams_ok_iff` of Proofs/ParamSound on a second text -/
+
+def aeR17T1 : Buf := "a=1;b=2;c".toUTF8.data
+def aeR17T2 : Buf := "x=9;lr".toUTF8.data
+/-- the list after the first parse (capacity 4) -/
+def aeR17L : URIParamsLst := (parseAllURIParams aeR17T1 0 { params := Array.replicate 4 {} } POptTokURIParamF).2.2.2
+def aeR17R2 : Nat × Nat × Err × URIParamsLst :=
+  parseAllURIParams aeR17T2 0 aeR17L.reset (POptTokURIParamF ||| POptInputEndF)
+
+-- test: the first list really was used; the parse after Reset ends with EOH after 2 parameters
+example : aeR17L.n = 2 ∧ aeR17L.params[0]! ≠ {} ∧ aeR17R2.2.2.1 = .eoh ∧ aeR17R2.2.1 = 2 ∧ aeR17R2.1 = 6 := by
+  decide +kernel
+
+theorem aeR17_fresh : aeR17L.reset.Fresh :=
+  ae_params_reset_fresh
+    (parseAllURIParams_post aeR17T1 0 _ POptTokURIParamF (by decide) (plOK_new _ 4) (Nat.zero_le _)).1.2
+
+-- the soundness direction of `parseAllURIParams_ok_iff` applied to the RESET list: the second text is a list of the
+-- grammar, and the returned object is the reset list with its items pushed in order
+example : ∃ tps, PSList aeR17T2 ((POptTokURIParamF ||| POptInputEndF) ||| POptParamSemiSepF) 0 tps aeR17R2.1 .eoh ∧
+    aeR17R2.2.1 = tps.length ∧ aeR17R2.2.2.2 = (tps.map (typed aeR17T2)).foldl URIParamsLst.push aeR17L.reset :=
+  (parseAllURIParams_ok_iff (by decide +kernel) aeR17L.reset aeR17_fresh).mp
+    ⟨(by
+      have h : aeR17R2.2.2.1 = .eoh := by decide +kernel
+      have e : aeR17R2 = (aeR17R2.1, aeR17R2.2.1, aeR17R2.2.2.1, aeR17R2.2.2.2) := rfl
+      rw [h] at e
+      exact e), Or.inr rfl⟩
 
 /-! ## C02: resumption theorems applied to genuinely suspended objects
 
@@ -523,6 +578,18 @@ theorem ae_parseHdrLine_offset_monotone (b : Buf) (o : Nat) (h : Hdr) (hb : Opti
 theorem ae_parseHdrLine_ok_advances (b : Buf) (o : Nat) (h : Hdr) (hb : Option PHdrVals) (hok : hlOK b o h hb)
     (hpe : hlPending (h, hb)) {o' : Nat} {h' : Hdr} {hb' : Option PHdrVals}
     (hr : parseHdrLine b o h hb = (o', .ok, h', hb')) : o < o' := parseHdrLine_ok_gt b o h hb hok hpe hr
+
+-- tests: the hypotheses are met by the first call on a new object (contacts at offset 9: suspended at 20 of 20 bytes)
+-- and by a resumed call (the suspended first-line object of `aeFlR1`, C02 section above)
+example : 9 ≤ aeC4R1.1 ∧ aeC4R1.1 ≤ aeC41.size :=
+  ae_parseAllContactValues_offset_monotone aeC41 9 aeC4New (by decide +kernel) (afb_ctOK_new _ _ (by decide +kernel) 2)
+    (ae_eta3 aeC4R1 (by decide +kernel)) (Or.inr rfl)
+example : aeFlR1.1 ≤ aeFlR2.1 ∧ aeFlR2.1 ≤ (aeFl1 ++ aeFlS1).size := by
+  have h1 := C02.resume_fline aeFl1 aeFlS1 0 {} (Nat.zero_le _) afb_flOK_new (by decide +kernel)
+    (ae_eta3 aeFlR1 (by decide +kernel))
+  exact ae_parseFLine_offset_monotone (aeFl1 ++ aeFlS1) aeFlR1.1 aeFlR1.2.2
+    (by have := h1.2.2; rw [Array.size_append]; omega) h1.2.1 (by decide +kernel)
+    (ae_eta3 aeFlR2 (by decide +kernel)) (Or.inr rfl)
 
 /-! ## C05: `layout_one_call` and `fields_inside_consumed` on a RESUMED object -/
 
